@@ -604,7 +604,9 @@ impl Cw1Scen {
         let k = rng.below(100);
         let bank_cut = if bank_bias { 55 } else { 30 };
         if k < bank_cut {
-            format!("bank/{}/{}", rng.pick(&self.pool), self.gen_coins(rng, who))
+            // now and then the recipient is the proxy itself
+            let to = if rng.chance(1, 12) { self.env.contract.address.clone() } else { rng.pick(&self.pool).clone() };
+            format!("bank/{}/{}", to, self.gen_coins(rng, who))
         } else if k < bank_cut + 15 {
             match rng.below(3) {
                 0 => format!("stake/delegate/{}/{}", rng.pick(&VALIDATORS), self.gen_small_coin(rng)),
